@@ -140,6 +140,26 @@ def unterminated_seek(evs):
                 return evs
 check("an index seek without terminator", "TraceAux", core.TRACE_CFG % "InvAux", open(kout).readlines(), unterminated_seek)
 
+# the cursor contract: a cursor that, sought again, still stands where it stood
+cuout = os.path.join(ctx.work, "cursor.ndjson")
+core.run_driver(ctx, ["aux", "-kind", "cursor", "-seed", "7", "-n", "6", "-out", cuout])
+def stale_cursor(evs):
+    for e in evs:
+        if e.get("kind") == "cursor" and e["obs"] and e["obs2"] and e["obs2"][0] != e["obs"][-1]:
+            e["obs2"] = [e["obs"][-1]] + e["obs2"]
+            return evs
+check("a second seek that kept the old item", "TraceAux", core.TRACE_CFG % "InvAux", open(cuout).readlines(), stale_cursor)
+
+# Close against running operations: a call that never returned
+crout = os.path.join(ctx.work, "closerace.ndjson")
+core.run_driver(ctx, ["aux", "-kind", "closerace", "-seed", "7", "-n", "3", "-out", crout])
+def blocked_call(evs):
+    for e in evs:
+        if e.get("kind") == "closerace":
+            e["blocked"] = 1
+            return evs
+check("a call that never returned", "TraceAux", core.TRACE_CFG % "InvAux", open(crout).readlines(), blocked_call)
+
 # concurrency: a Count that still reports the size before an acknowledged insert
 cout = os.path.join(ctx.work, "conc.ndjson")
 core.run_driver(ctx, ["conc", "-seed", "7", "-n", "1", "-maxg", "2", "-ops", "2", "-backends", "bolt", "-out", cout])
